@@ -300,8 +300,9 @@ void ac_trie_prepare(trie * a) {
 		a->node[i].ac_fail = 0;
 	}
 
-	// Create a buffer to use
-	char buffer[a->capacity];
+	// Create a buffer to use (a key can be as long as there are nodes, and
+	// ac_trie_node_prepare() terminates it twice)
+	char buffer[a->capacity + 2];
 
 	ac_trie_node_prepare(a, 0, buffer, 0, 0);
 }
